@@ -3,6 +3,7 @@ From Coq Require Import List ZArith Bool Lia.
 From GV Require Import Gen.GenArbiter Model.Arbiter Proof.ArbiterBase Proof.ArbiterInv.
 Import ListNotations.
 Local Open Scope Z_scope.
+Local Opaque reap_guards_halting.
 
 (* ---- no zombie survives a SIGCHLD step ------------------------------------------------------------ *)
 Lemma first_zombie_length : forall l z rest, first_zombie l = Some (z, rest) -> length l = S (length rest).
@@ -19,8 +20,8 @@ Proof.
   apply first_zombie_length in F.
   destruct (reexec s =? c_pid z).
   - apply IHf in R; auto. simpl. lia.
-  - destruct (Z.shiftr (status_of z) 8 =? worker_boot_error); try discriminate.
-    destruct (Z.shiftr (status_of z) 8 =? app_load_error); try discriminate.
+  - destruct ((Z.shiftr (status_of z) 8 =? worker_boot_error) && raises _); try discriminate.
+    destruct ((Z.shiftr (status_of z) 8 =? app_load_error) && raises _); try discriminate.
     apply IHf in R; auto. simpl. lia.
 Qed.
 
@@ -37,8 +38,8 @@ Proof.
     induction f; simpl; intros; try discriminate.
     destruct (first_zombie (kids s)) as [[z rest]|]; try discriminate.
     destruct (reexec s =? c_pid z). eauto.
-    destruct (Z.shiftr (status_of z) 8 =? worker_boot_error). inversion R; auto.
-    destruct (Z.shiftr (status_of z) 8 =? app_load_error). inversion R; auto. eauto.
+    destruct ((Z.shiftr (status_of z) 8 =? worker_boot_error) && raises _). inversion R; auto.
+    destruct ((Z.shiftr (status_of z) 8 =? app_load_error) && raises _). inversion R; auto. eauto.
   - simpl. split; auto. eapply reap_none_no_zombie; eauto.
 Qed.
 
@@ -90,12 +91,20 @@ Lemma manage_kill_step : forall s p v, cur s = PManageKill (p :: v) ->
 Proof. intros. unfold master. rewrite H. reflexivity. Qed.
 
 (* ---- a worker that cannot boot stops the server ---------------------------------------------------- *)
+(* [halting x p]: the master is inside a stop() at whose end it exits with status x (or has done so).  The stop(False) of
+   handle_int / handle_quit (continuation AHalt: `raise StopIteration` -> halt() -> exit 0) only counts when reap_workers
+   does not raise once stop() has begun; without that guard a boot failure reaped there replaces the status.  A master
+   that died of an escaped HaltServer is only possible without the guard. *)
+Definition after_status (x : Z) (a : after) : Prop :=
+  match a with AExit y => y = x | AHalt => x = 0 /\ reap_guards_halting = true end.
+Definition kacont_status (x : Z) (k : kacont) : Prop :=
+  match k with KALoop => False | KAWait _ a | KADone a => after_status x a end.
 Definition halting (x : Z) (p : pc) : Prop :=
   match p with
-  | PKillAllSnap _ (KAWait _ (AExit y)) | PKillAllSnap _ (KADone (AExit y))
-  | PKillAll _ _ (KAWait _ (AExit y)) | PKillAll _ _ (KADone (AExit y))
-  | PStopWait _ (AExit y) | PStopNap _ (AExit y) | PExited y => y = x
-  | PCrashed => True
+  | PKillAllSnap _ k | PKillAll _ _ k => kacont_status x k
+  | PStopWait _ a | PStopNap _ a => after_status x a
+  | PExited y => y = x
+  | PCrashed => reap_guards_halting = false
   | _ => False
   end.
 
@@ -104,7 +113,7 @@ Lemma halting_killall_next : forall x s l sg k,
 Proof.
   intros. unfold killall_next. destruct l; simpl; auto.
   destruct k; simpl in *; try contradiction; auto.
-  destruct a; simpl in *; try contradiction. auto.
+  destruct a; simpl in *; auto. destruct H as [-> _]. unfold enter_stop. destruct (lopen s); simpl; auto.
 Qed.
 
 Lemma forks_kill_worker : forall s p sg, forks (kill_worker s p sg) = forks s.
@@ -112,23 +121,50 @@ Proof. intros. unfold kill_worker. destruct (kill_in (kids s) p sg) as [[k d]|];
 Lemma cur_kill_worker : forall s p sg, cur (kill_worker s p sg) = cur s.
 Proof. intros. unfold kill_worker. destruct (kill_in (kids s) p sg) as [[k d]|]; simpl; auto. destruct d; auto. Qed.
 
+Lemma raises_cur : forall a b, cur a = cur b -> raises a = raises b.
+Proof. intros a b E. unfold raises, stopping. rewrite E. reflexivity. Qed.
+
 Lemma reap_forks_cur : forall f s s' r, reap f s = (s', r) -> forks s' = forks s /\ cur s' = cur s.
 Proof.
   induction f; simpl; intros. inversion H; auto.
   destruct (first_zombie (kids s)) as [[z rest]|]. 2: (inversion H; auto).
   destruct (reexec s =? c_pid z). apply IHf in H. simpl in H. auto.
-  destruct (Z.shiftr (status_of z) 8 =? worker_boot_error). inversion H; auto.
-  destruct (Z.shiftr (status_of z) 8 =? app_load_error). inversion H; auto.
+  destruct ((Z.shiftr (status_of z) 8 =? worker_boot_error) && raises _). inversion H; auto.
+  destruct ((Z.shiftr (status_of z) 8 =? app_load_error) && raises _). inversion H; auto.
   apply IHf in H. simpl in H. auto.
 Qed.
 
-Lemma halting_in_final_stop : forall x p, halting x p -> master_gone p = false -> in_final_stop p = true.
+(* HaltServer is raised only where the tests of reap_workers let it *)
+Lemma reap_some_raises : forall f s s' code, reap f s = (s', Some code) -> raises s = true.
 Proof.
-  intros x p H G. destruct p; simpl in *; try contradiction; try discriminate; auto.
-  - destruct k; try contradiction; destruct a; try contradiction; auto.
-  - destruct k; try contradiction; destruct a; try contradiction; auto.
-  - destruct a; try contradiction; auto.
-  - destruct a; try contradiction; auto.
+  induction f; simpl; intros s s' code H. discriminate.
+  destruct (first_zombie (kids s)) as [[z rest]|]. 2: discriminate.
+  destruct (reexec s =? c_pid z). { apply IHf in H. rewrite <- H. apply raises_cur. reflexivity. }
+  destruct (raises (set_kids s rest)) eqn:E. { rewrite <- E. apply raises_cur. reflexivity. }
+  rewrite !andb_false_r in H. apply IHf in H. rewrite <- H. apply raises_cur. reflexivity.
+Qed.
+
+Lemma raises_in_stop : forall s, raises s = true -> in_stop (cur s) = true -> reap_guards_halting = false.
+Proof.
+  intros s R I. unfold raises, stopping in R. rewrite I in R.
+  destruct reap_guards_halting; [discriminate R|reflexivity].
+Qed.
+
+Lemma guarded_not_stopping : forall s, reap_guards_halting = true -> raises s = true -> in_stop (cur s) = false.
+Proof. intros s G R. destruct (in_stop (cur s)) eqn:I; [|reflexivity]. pose proof (raises_in_stop s R I). congruence. Qed.
+
+Lemma final_in_stop : forall p, in_final_stop p = true -> in_stop p = true.
+Proof. destruct p; simpl; try discriminate; auto; destruct k; auto. Qed.
+
+Lemma halting_in_stop : forall x p, halting x p -> master_gone p = false -> in_stop p = true.
+Proof. intros x p H G. destruct p; simpl in *; try contradiction; try discriminate; auto; destruct k; simpl in H; auto; contradiction. Qed.
+
+Lemma halting_in_final_stop : forall x p, halting x p -> master_gone p = false -> reap_guards_halting = false ->
+  in_final_stop p = true.
+Proof.
+  intros x p H G N.
+  destruct p; simpl in *; try contradiction; try discriminate; auto;
+    try (destruct k; simpl in H; try contradiction); destruct a; simpl in *; auto; destruct H; congruence.
 Qed.
 
 Lemma halting_master : forall x s, halting x (cur s) -> halting x (cur (master s)) /\ forks (master s) = forks s.
@@ -138,8 +174,8 @@ Proof.
   - apply halting_killall_next. simpl. exact H.
   - destruct l as [|q l]. apply halting_killall_next; auto.
     destruct (halting_killall_next x (kill_worker s q sg) l sg k H) as [H1 H2]. rewrite forks_kill_worker in H2. auto.
-  - destruct a; try contradiction. destruct (negb (wlen s =? 0) && (wall s <? limit)); simpl; auto.
-  - destruct a; try contradiction. simpl. auto.
+  - destruct (negb (wlen s =? 0) && (wall s <? limit)); simpl; auto.
+  - simpl. auto.
   - rewrite PC. simpl. auto.
   - rewrite PC. simpl. auto.
 Qed.
@@ -149,9 +185,11 @@ Proof.
   intros x s l H. destruct l; unfold step.
   - apply halting_master; auto.
   - (* Chld *) unfold chld. destruct (master_gone (cur s)) eqn:G; auto.
-    destruct (reap (S (length (kids s))) s) as [s1 r] eqn:R. apply reap_forks_cur in R. destruct R as [R1 R2].
+    destruct (reap (S (length (kids s))) s) as [s1 r] eqn:R. pose proof R as R0. apply reap_forks_cur in R. destruct R as [R1 R2].
     destruct r; simpl.
-    + rewrite R2. rewrite (halting_in_final_stop _ _ H G). simpl. auto.
+    + (* HaltServer inside a stop(): the tree has no guard, and this is the stop() of halt() *)
+      pose proof (raises_in_stop s (reap_some_raises _ _ _ _ R0) (halting_in_stop _ _ H G)) as N.
+      rewrite R2. rewrite (halting_in_final_stop _ _ H G N). simpl. auto.
     + rewrite R2. auto.
   - simpl. auto.
   - destruct (master_gone (cur s)); auto. destruct (zmem sg queued_signals && (Z.of_nat (length (sigq s)) <? sig_queue_max)); auto.
@@ -173,6 +211,17 @@ Proof.
   destruct (IHls _ H1) as [H3 H4]. split; auto. congruence.
 Qed.
 
+(* what [halting x] promises about the rest of the run, spelled out *)
+Lemma halting_outcome : forall x s ls, halting x (cur s) ->
+  forks (run s ls) = forks s /\
+  (forall y, cur (run s ls) = PExited y -> y = x) /\
+  (cur (run s ls) = PCrashed -> reap_guards_halting = false).
+Proof.
+  intros x s ls H. destruct (halting_run x ls s H) as [H1 H2]. split; auto. split.
+  - intros y E. rewrite E in H1. exact H1.
+  - intros E. rewrite E in H1. exact H1.
+Qed.
+
 (* HaltServer raised by the handler while the master is serving: halt(reason, code) begins *)
 Lemma chld_halts : forall s s1 code, master_gone (cur s) = false -> in_final_stop (cur s) = false ->
   reap (S (length (kids s))) s = (s1, Some code) ->
@@ -186,10 +235,10 @@ Qed.
 Definition boot_code (c : child) : bool :=
   (Z.shiftr (status_of c) 8 =? worker_boot_error) || (Z.shiftr (status_of c) 8 =? app_load_error).
 
-Lemma reap_none_no_boot_failure : forall f s s', (length (kids s) < f)%nat -> Inv s -> reap f s = (s', None) ->
+Lemma reap_none_no_boot_failure : forall f s s', (length (kids s) < f)%nat -> Inv s -> raises s = true -> reap f s = (s', None) ->
   forall z, In z (kids s) -> is_zombie z = true -> boot_code z = true -> c_pid z = reexec s.
 Proof.
-  induction f; intros s s' Hf HI R z Hz Zz Bz. lia.
+  induction f; intros s s' Hf HI HR R z Hz Zz Bz. lia.
   simpl in R. destruct (first_zombie (kids s)) as [[z0 rest]|] eqn:F.
   2: { apply first_zombie_none in F. rewrite forallb_forall in F. apply F in Hz. unfold is_running in Hz. rewrite Zz in Hz. discriminate. }
   pose proof (first_zombie_length _ _ _ F) as HL.
@@ -199,12 +248,14 @@ Proof.
   assert (Hcase : z = z0 \/ In z rest).
   { rewrite E1 in Hz. rewrite E2. apply in_app_iff in Hz. simpl in Hz. rewrite in_app_iff.
     destruct Hz as [Hz|[Hz|Hz]]; auto. }
-  simpl in R. destruct (reexec s =? c_pid z0) eqn:E.
+  assert (HR1 : raises (set_kids s rest) = true). { rewrite <- HR. apply raises_cur. reflexivity. }
+  simpl in R. rewrite HR1, !andb_true_r in R. destruct (reexec s =? c_pid z0) eqn:E.
   - rewrite Z.eqb_eq in E. destruct Hcase as [->|Hin]; auto.
     assert (HI2 : Inv (set_reexec (set_kids s rest) 0)).
     { unfold Inv. simpl. eapply invat_clear_reexec with (z := c_pid z0); eauto. simpl. intros c Hc. apply Hsub. auto. }
     assert (HL2 : (length (kids (set_reexec (set_kids s rest) 0)) < f)%nat) by (simpl; lia).
-    specialize (IHf _ _ HL2 HI2 R z Hin Zz Bz). simpl in IHf.
+    assert (HR2 : raises (set_reexec (set_kids s rest) 0) = true). { rewrite <- HR. apply raises_cur. reflexivity. }
+    specialize (IHf _ _ HL2 HI2 HR2 R z Hin Zz Bz). simpl in IHf.
     (* pids are positive *)
     pose proof (i_kfresh _ _ HI) as Hp. rewrite Forall_forall in Hp. specialize (Hp (c_pid z) (in_map _ _ _ Hz)). lia.
   - destruct Hcase as [->|Hin].
@@ -216,27 +267,80 @@ Proof.
       assert (HI2 : Inv (set_workers (set_kids s rest) (remove_wk (c_pid z0) (workers (set_kids s rest))))).
       { unfold Inv. simpl. apply (invat_remove (cur s) (set_kids s rest)); auto. simpl. intros _ c Hc. apply Hsub. auto. }
       assert (HL2 : (length (kids (set_workers (set_kids s rest) (remove_wk (c_pid z0) (workers (set_kids s rest))))) < f)%nat) by (simpl; lia).
-      specialize (IHf _ _ HL2 HI2 R z Hin Zz Bz). simpl in IHf. auto.
+      assert (HR2 : raises (set_workers (set_kids s rest) (remove_wk (c_pid z0) (workers (set_kids s rest)))) = true).
+      { rewrite <- HR. apply raises_cur. reflexivity. }
+      specialize (IHf _ _ HL2 HI2 HR2 R z Hin Zz Bz). simpl in IHf. auto.
 Qed.
 
+(* [raises s]: the tests of reap_workers let a boot failure through - always on a tree without the guard, before stop()
+   has been entered on a tree with it.  Then the boot failure of a worker halts the master with the worker's code, for
+   every continuation of the schedule: no fork any more, an orderly exit carries that status - also when further boot
+   failures or other deaths are reaped while halt() / stop() run - and (with the guard) no exception leaves run(). *)
 Theorem boot_failure_halts : forall s z,
-  Inv s -> master_gone (cur s) = false -> in_final_stop (cur s) = false ->
+  Inv s -> master_gone (cur s) = false -> in_final_stop (cur s) = false -> raises s = true ->
   In z (kids s) -> is_zombie z = true -> boot_code z = true -> c_pid z <> reexec s ->
   exists code, (code = worker_boot_error \/ code = app_load_error) /\
     halting code (cur (chld s)) /\ master_gone (cur (chld s)) = false /\
-    (* from here on: never another fork, and an orderly exit carries that status *)
     forall ls, forks (run (chld s) ls) = forks s /\
-               forall x, cur (run (chld s) ls) = PExited x -> x = code.
+               (forall x, cur (run (chld s) ls) = PExited x -> x = code) /\
+               (cur (run (chld s) ls) = PCrashed -> reap_guards_halting = false).
 Proof.
-  intros s z HI G F Hz Zz Bz Nz.
+  intros s z HI G F HR Hz Zz Bz Nz.
   destruct (reap (S (length (kids s))) s) as [s1 [code|]] eqn:R.
   - pose proof (no_zombie_survives_chld s G) as Hc. rewrite R in Hc.
     destruct (chld_halts _ _ _ G F R) as [H1 H2]. exists code. split; auto.
-    assert (Hh : halting code (cur (chld s))). { rewrite H1. simpl. auto. }
-    repeat split; auto. rewrite H1; auto.
-    + destruct (halting_run code ls _ Hh). congruence.
-    + intros x Hx. destruct (halting_run code ls _ Hh) as [H3 _]. rewrite Hx in H3. simpl in H3. auto.
+    assert (Hh : halting code (cur (chld s))). { rewrite H1. simpl. reflexivity. }
+    split; [exact Hh|]. split; [rewrite H1; reflexivity|].
+    intros ls. destruct (halting_outcome code (chld s) ls Hh) as [A [B C]].
+    split; [congruence|]. split; assumption.
   - exfalso. apply Nz. eapply reap_none_no_boot_failure; eauto.
+Qed.
+
+(* with the guard, "not yet stopping" is all it takes *)
+Lemma guarded_boot_failure_pre : forall s, reap_guards_halting = true -> stopping s = false ->
+  raises s = true /\ in_final_stop (cur s) = false.
+Proof.
+  intros s _ N. split. { unfold raises. rewrite N, andb_false_r. reflexivity. }
+  destruct (in_final_stop (cur s)) eqn:F; [|reflexivity]. apply final_in_stop in F. unfold stopping in N. congruence.
+Qed.
+
+Theorem boot_failure_halts_guarded : reap_guards_halting = true -> forall s z,
+  Inv s -> master_gone (cur s) = false -> stopping s = false ->
+  In z (kids s) -> is_zombie z = true -> boot_code z = true -> c_pid z <> reexec s ->
+  exists code, (code = worker_boot_error \/ code = app_load_error) /\
+    halting code (cur (chld s)) /\ master_gone (cur (chld s)) = false /\
+    forall ls, forks (run (chld s) ls) = forks s /\
+               (forall x, cur (run (chld s) ls) = PExited x -> x = code) /\
+               cur (run (chld s) ls) <> PCrashed.
+Proof.
+  intros Gd s z HI G N Hz Zz Bz Nz. destruct (guarded_boot_failure_pre s Gd N) as [HR F].
+  destruct (boot_failure_halts s z HI G F HR Hz Zz Bz Nz) as [code [H1 [H2 [H3 H4]]]].
+  exists code. split; [exact H1|]. split; [exact H2|]. split; [exact H3|].
+  intros ls. destruct (H4 ls) as [A [B C]]. split; [exact A|]. split; [exact B|].
+  intro X. apply C in X. congruence.
+Qed.
+
+(* ---- TERM / INT / QUIT: the exit status is 0 whatever is reaped while the master stops ---------------------------- *)
+Lemma stop_signals_distinct :
+  (SIGTERM =? SIGHUP) = false /\ (SIGINT =? SIGHUP) = false /\ (SIGQUIT =? SIGHUP) = false /\
+  (SIGINT =? SIGTERM) = false /\ (SIGQUIT =? SIGTERM) = false.
+Proof. vm_compute. repeat split; reflexivity. Qed.
+
+Theorem stop_signal_exits_0 : forall s sg q,
+  cur s = PSigq -> sigq s = sg :: q ->
+  sg = SIGTERM \/ (reap_guards_halting = true /\ (sg = SIGINT \/ sg = SIGQUIT)) ->
+  halting 0 (cur (master s)) /\
+  forall ls, forks (run (master s) ls) = forks (master s) /\
+             (forall x, cur (run (master s) ls) = PExited x -> x = 0) /\
+             (cur (run (master s) ls) = PCrashed -> reap_guards_halting = false).
+Proof.
+  intros s sg q PC Q Hs. destruct stop_signals_distinct as [D1 [D2 [D3 [D4 D5]]]].
+  assert (H : halting 0 (cur (master s))).
+  { unfold master. rewrite PC, Q. unfold dispatch. destruct Hs as [->|[G [->| ->]]].
+    - rewrite D1, Z.eqb_refl. unfold enter_stop. cbv zeta. destruct (lopen _); simpl; auto.
+    - rewrite D2, D4, Z.eqb_refl. cbn [orb]. unfold enter_stop. cbv zeta. destruct (lopen _); simpl; auto.
+    - rewrite D3, D5, Z.eqb_refl, orb_true_r. unfold enter_stop. cbv zeta. destruct (lopen _); simpl; auto. }
+  split; auto. intros ls. apply halting_outcome. exact H.
 Qed.
 
 (* the orderly-exit statuses *)
